@@ -86,9 +86,16 @@ CHECKS.update({
             "assumptions": E1_ASSUME + ["one access unit per write, so that every write causes at most one rotation and the state after each write is observable",
                                         "a request counts as blocked when its goroutine is parked in sync.Cond.Wait/select (goroutine state, not a timeout); a lock wait counts as blocked only after 3 s",
                                         "_HLS_msn equal to EXT-X-MEDIA-SEQUENCE (oldest listed entry): both 400 and a playlist are accepted (boundary pinned by TestMuxerExpiredSegment)"]},
-    "C07": {"steps": [REPLAYS, rapid("close", "TestC07", 1200, 40000, qshards=4, tshards=14, shrinktime="40s", timeout={"quick": 900, "thorough": 3000})],
+    "C07": {"steps": [REPLAYS, rapid("close", "TestC07", 6000, 120000, qshards=4, tshards=14, shrinktime="40s", timeout={"quick": 900, "thorough": 3000})],
             "assumptions": E1_ASSUME + ["'promptly' is decided by goroutine state: a request is finished, or parked in a synchronisation primitive (a lock wait counts as blocked after 3 s)",
                                         "the interleaving of Close with the waiters is controlled at the yield point between Close's broadcast and its per-stream cleanup (hook), other interleavings are the scheduler's"]},
+    "C20": {"steps": [REPLAYS,
+                      plain("exhaustive", "TestC20Exhaustive", timeout={"quick": 600, "thorough": 2400}),
+                      rapid("queue", "TestC20", 6000, 300000, qshards=4, tshards=14),
+                      plain("race", "TestC20Race", race=True, race_reports=True, timeout={"quick": 600, "thorough": 2400})],
+            "assumptions": ["one producer and one consumer, as in the client (one downloader, one processor per stream)",
+                            "interleavings are enumerated at the instrumented yield points (after each unlock, before the following wait) and at operation boundaries; inside critical sections operations are atomic",
+                            "blocked = goroutine parked in select (goroutine state), not a timeout"]},
     "C16": e1("TestC16", 1000, 30000),
     "C18": e1("TestC18", 400, 8000),
     "C19": e1("TestC19", 800, 30000),
